@@ -646,6 +646,23 @@ func TestVerif_C16(t *testing.T) {
 		for _, f := range sc.Features {
 			w.Count("feature-" + f)
 		}
+		// an unmarked object controlled by the target exists, and a hook was asked (and answered) in a recorded round
+		for _, f := range sc.Features {
+			if f == "unmarked-controlled-lookalike" {
+				for _, r := range rec.Rounds {
+					asked := false
+					for _, e := range r.Events {
+						if e.Hook != nil && e.Hook.Code == 200 && !e.Hook.NetErr {
+							asked = true
+						}
+					}
+					if asked {
+						w.Count("unmarked-lookalike-exposed")
+						break
+					}
+				}
+			}
+		}
 		writes := 0
 		for _, r := range rec.Rounds {
 			w.Count("result-" + r.Result)
